@@ -216,4 +216,44 @@ except ValueError:
 return r1 and r2
 """
     out.append(mk_case("c04.mod.twice_refused", [("u1", "int")], body, pre=["I64(u1)"]))
+    # the same path object asked twice about the same document object, which the caller edits in place in between
+    # (and the first result list edited by the caller): every call reports the document as it is at that call
+    for pid, psrc, PT in [("M/args", "DataPath('jobs', ListValue(), 'args')", "(('prim', 'jobs'), ('list', NULL), ('prim', 'args'))"),
+                          ("M/args/L", "DataPath('jobs', ListValue(), 'args', ListValue(value=Value.greater_than(t)))",
+                           "(('prim', 'jobs'), ('list', NULL), ('prim', 'args'), ('list', V('greater_than', t)))"),
+                          ("concrete", "DataPath('jobs', 1, 'args')", "(('prim', 'jobs'), ('prim', 1), ('prim', 'args'))")]:
+        body = f"""
+doc = {{'jobs': [{{'args': [1, u1]}}, {{'args': [3]}}, {{'args': [4, 5, 6]}}]}}
+path = {psrc}
+PT = {PT}
+lp, fp = path.length(), (path.first() if not path.is_concrete else path)
+ok = True
+for step in range(3):
+    exp = ref_walk(PT, doc)
+    got = path.get_data(doc, return_paths=True)
+    if path.is_concrete:
+        got = [got] if got is not None else []
+    ok = ok and same('pairs at step %d' % step, tx([(v, tuple(cp)) for v, cp in got]), tx(exp))
+    ok = ok and note('every path is truthful at step %d' % step, all(follow(doc, cp) is v for v, cp in got))
+    vals = path.get_data(doc)
+    if path.is_concrete:
+        vals = [vals] if vals is not None else []
+    ok = ok and same('values without paths at step %d' % step, tx(vals), tx([v for v, _ in exp]))
+    ok = ok and same('values without paths again', tx(path.get_data(doc) if not path.is_concrete else vals), tx([v for v, _ in exp]))
+    if not path.is_concrete:
+        if all(isinstance(v, (list, dict, str)) for v, _ in exp):   # (length is only defined for sized nodes)
+            ok = ok and same('length() at step %d' % step, tx(lp.get_data(doc)), tx([ref_datum_mod('length', v) for v, _ in exp]))
+        ok = ok and same('first() at step %d' % step, tx(fp.get_data(doc)), tx(exp[0][0] if exp else []))
+        vals.append('caller-owned')   # the caller edits the list it was handed
+    if step == 0:
+        doc['jobs'][0]['args'] = [30, u1]
+        doc['jobs'][1]['args'][0] = 40
+        doc['jobs'][1]['args'].append(u2)
+    elif step == 1:
+        doc['jobs'].pop()
+        doc['jobs'].insert(0, {{'args': [u2]}})
+return ok
+"""
+        params = [("u1", "int"), ("u2", "int")] + ([("t", "int")] if pid == "M/args/L" else [])
+        out.append(mk_case(f"c04.history.edit_in_place.{pid}", params, body, pre=[f"BU({L}, {', '.join(n for n, _ in params)})"], stubs=["sym_repr"]))
     return out
